@@ -432,7 +432,8 @@ AllAwaitEntries = ForallList('to_await_entry', lambda p, items: z3.And(V.is_Pair
 class ExecuteFields(Contract):
     """execute_fields: whatever the per-field concurrency flags, position j of the result list ends up holding the outcome of field j's own
     resolution (positional merge after the gather), unknown fields are dropped, any failure is re-raised as a gathered MultipleException,
-    and the response map pairs each key with its own result.  Proved for an arbitrary index j0 (hence for all)."""
+    the response map pairs each key with its own result, and any two keys appear in the map in their collection order (first-appearance
+    order).  Proved for arbitrary indices i0 < j0 (hence for all pairs)."""
     key = 'tartiflette/execution/execute.py::execute_fields'
     property_ids = ('C08', 'C01', 'C02')
     params = ['execution_context', 'parent_type', 'source_value', 'path', 'fields', 'is_introspection_context']
@@ -441,21 +442,23 @@ class ExecuteFields(Contract):
 
     def args(self, en, names):
         self.A = super().args(en, names)
-        self.j0 = z3.Int('j0')
+        self.j0, self.i0 = z3.Int('j0'), z3.Int('i0')
         return self.A
 
     def items(self, A=None):
         return V.ditems((A or self.A)['fields'])
 
+    def _unique(self, items, idx):
+        x = z3.Int('ux_')
+        return z3.ForAll([x], z3.Implies(z3.And(x >= 0, x < length(items), V.fst(nth(items, x)) == V.fst(nth(items, idx))), x == idx), patterns=[nth(items, x)])
+
     def pre(self, A, st):
         items = self.items(A)
-        x = z3.Int('ux_')
         return [('fields', z3.And(V.is_Dict(A['fields']), AllExecEntries(items))),
                 ('context', z3.And(exact(A['execution_context'], 'ExecutionContext'), V.oref(A['execution_context']) >= 0)),
-                ('arbitrary_position', z3.And(self.j0 >= 0, self.j0 < length(items))),
+                ('arbitrary_positions', z3.And(self.i0 >= 0, self.i0 < self.j0, self.j0 < length(items))),
                 # dict keys are unique (well-formedness of a Python dict)
-                ('dict_keys_unique', z3.ForAll([x], z3.Implies(z3.And(x >= 0, x < length(items), V.fst(nth(items, x)) == V.fst(nth(items, self.j0))), x == self.j0),
-                                               patterns=[nth(items, x)]))]
+                ('dict_keys_unique', z3.And(self._unique(items, self.j0), self._unique(items, self.i0)))]
 
     def extra_env(self, en, A):
         return {'get_field_definition': PyFunc('get_field_definition', lambda en, st, a, kw: [(st, FDof(en.read(a[2], st)))])}
@@ -468,35 +471,50 @@ class ExecuteFields(Contract):
             return [(st, CoroOf(nodes, key))]      # an un-awaited coroutine object
         return None
 
-    def _p0(self):
-        return nth(self.items(), self.j0)
+    def _p(self, idx):
+        return nth(self.items(), idx)
+
+    def _both(self, fn):
+        """the per-position clauses are stated for both arbitrary positions"""
+        out = {}
+        for tag, idx in (('j0', self.j0), ('i0', self.i0)):
+            for name, g in fn(idx).items():
+                out[f"{name}[{tag}]"] = g
+        return out
 
     def _inv0(self, en, st, k, st0):
-        items, j0 = self.items(), self.j0
+        items = self.items()
         res = V.items(en.read(st.env['results'], st))
         ta = V.ditems(en.read(st.env['to_await'], st))
-        p0 = self._p0()
-        return {'positional': length(res) == k,
-                'first_pass_slot': z3.Implies(j0 < k, nth(res, j0) == slot_first_pass(p0)),
-                'sequential_ones_did_not_fail': z3.Implies(z3.And(j0 < k, _fd(p0) != V.None_, z3.Not(_conc(p0))), z3.Not(coro_raises(_co(p0)))),
-                'pending_by_position': lookup(ta, V.Int(j0)) == z3.If(z3.And(j0 < k, _fd(p0) != V.None_, _conc(p0)), _co(p0), V.Missing),
-                'pending_entries': AllAwaitEntries(ta, items), 'results_are_values': AllFOV(res)}
+
+        def at(idx):
+            p0 = self._p(idx)
+            return {'first_pass_slot': z3.Implies(idx < k, nth(res, idx) == slot_first_pass(p0)),
+                    'sequential_ones_did_not_fail': z3.Implies(z3.And(idx < k, _fd(p0) != V.None_, z3.Not(_conc(p0))), z3.Not(coro_raises(_co(p0)))),
+                    'pending_by_position': lookup(ta, V.Int(idx)) == z3.If(z3.And(idx < k, _fd(p0) != V.None_, _conc(p0)), _co(p0), V.Missing)}
+        return {'positional': length(res) == k, 'pending_entries': AllAwaitEntries(ta, items), 'results_are_values': AllFOV(res), **self._both(at)}
 
     def _inv1(self, en, st, m, st0):
-        items, j0 = self.items(), self.j0
+        items = self.items()
         res = V.items(en.read(st.env['results'], st))
         ta = V.ditems(en.read(st.env['to_await'], st))
-        p0 = self._p0()
-        done = lookup(take(ta, m), V.Int(j0)) != V.Missing
-        return {'positional': length(res) == length(items),
-                'merged_by_position': nth(res, j0) == z3.If(done, _outcome(_co(p0)), slot_first_pass(p0)),
-                'results_are_values_or_failures': AllFOV(res)}
+
+        def at(idx):
+            p0 = self._p(idx)
+            done = lookup(take(ta, m), V.Int(idx)) != V.Missing
+            return {'merged_by_position': nth(res, idx) == z3.If(done, _outcome(_co(p0)), slot_first_pass(p0))}
+        return {'positional': length(res) == length(items), 'results_are_values_or_failures': AllFOV(res), **self._both(at)}
 
     def _invd(self, en, st, k, st0):
-        items, j0 = self.items(), self.j0
         d = V.ditems(en.read(st.env['__dictcomp0'], st))
-        p0 = self._p0()
-        return {'key_paired_with_its_own_result': lookup(d, V.fst(p0)) == z3.If(z3.And(j0 < k, slot_final(p0) != V.Undef), slot_final(p0), V.Missing)}
+        pi, pj = self._p(self.i0), self._p(self.j0)
+
+        def at(idx):
+            p0 = self._p(idx)
+            return {'key_paired_with_its_own_result': lookup(d, V.fst(p0)) == z3.If(z3.And(idx < k, slot_final(p0) != V.Undef), slot_final(p0), V.Missing),
+                    'not_yet_stored_before_its_turn': z3.Implies(k <= idx, index_of(d, V.fst(p0)) == length(d))}
+        return {**self._both(at),
+                'collection_order_kept': z3.Implies(z3.And(self.j0 < k, slot_final(pi) != V.Undef, slot_final(pj) != V.Undef), index_of(d, V.fst(pi)) < index_of(d, V.fst(pj)))}
 
     @property
     def loops(self):
@@ -504,13 +522,14 @@ class ExecuteFields(Contract):
 
     def post(self, A, st0, out):
         items = self.items(A)
-        p0 = nth(items, self.j0)
+        pi, p0 = nth(items, self.i0), nth(items, self.j0)
         if out.kind == 'raise':
             return [('a_gathered_or_immediate_failure', z3.And(exact(out.value, 'MultipleException'), _exc_full_wf(out.value)))]
         r = out.value
         return [('is_map', V.is_Dict(r)),
                 ('each_key_paired_with_its_own_result', lookup(V.ditems(r), V.fst(p0)) == z3.If(slot_final(p0) != V.Undef, slot_final(p0), V.Missing)),
-                ('no_failure_is_swallowed', z3.Implies(_fd(p0) != V.None_, z3.Not(coro_raises(_co(p0)))))]
+                ('no_failure_is_swallowed', z3.Implies(_fd(p0) != V.None_, z3.Not(coro_raises(_co(p0))))),
+                ('first_appearance_order', z3.Implies(z3.And(slot_final(pi) != V.Undef, slot_final(p0) != V.Undef), index_of(V.ditems(r), V.fst(pi)) < index_of(V.ditems(r), V.fst(p0))))]
 
 
 CONTRACTS.append(ExecuteFields())
